@@ -486,6 +486,7 @@ func c04Dispatch(r *Report, s *Sem, R6 string) {
 func c05(r *Report, s *Sem) {
 	defer r.Import(s, "C15", "L", "R7", "the pending table stays available while requests are written: its mutex is never held across a blocking primitive or a call that reaches one (a table locked during a transport write blocks the receiver's hand-off of every other response and the clean-up of every caller that gave up)", 1)
 	p := r.P
+	a := s.anchors()
 	R1 := r.Rule("R1", "every access to the pending-request table happens with its RW-mutex held, writes and deletes under the write lock", 5)
 	R2 := r.Rule("R2", "in the request path the duplicate lookup and the insert are one critical section, the insert is keyed by the request's id, the reply channel is created per call with capacity ≥ 1, and a deferred delete of that key covers every exit after the insert", 5)
 	R3 := r.Rule("R3", "the response returned to a caller is the one received from the reply channel that this call registered; the only other exits return errors", 2)
@@ -684,14 +685,29 @@ func c05(r *Report, s *Sem) {
 			// every request that is sent was registered first, whatever its method or other fields
 			nSend := 0
 			eachCall(reqFn, func(c ssa.CallInstruction) {
-				if !c.Common().IsInvoke() {
-					return
-				}
-				if _, isParam := stripConv(c.Common().Value).(*ssa.Parameter); !isParam {
-					return
-				}
-				if n := namedOf(c.Common().Value.Type()); n == nil || n.Obj().Pkg() != p.LimeT {
-					return
+				if c.Common().IsInvoke() {
+					// the sender handed in (an interface of the package)
+					if _, isParam := stripConv(c.Common().Value).(*ssa.Parameter); !isParam {
+						return
+					}
+					if n := namedOf(c.Common().Value.Type()); n == nil || n.Obj().Pkg() != p.LimeT {
+						return
+					}
+				} else {
+					// or a direct call of something that writes a data envelope to the transport
+					g := staticCallee(c)
+					if g == nil || g.Pkg != p.Lime {
+						return
+					}
+					sends := containsFn(a.dataSenders, g)
+					for f := range p.reachable(g) {
+						if containsFn(a.dataSenders, f) {
+							sends = true
+						}
+					}
+					if !sends {
+						return
+					}
 				}
 				nSend++
 				// every feasible path from the entry to the send passes the insert (edges that contradict what is known at
